@@ -82,6 +82,8 @@ def corpus():
                                    nlocks=2, tasks=[(0, 1), (-1, -1), (0, -1)], nq=1)))
     # direct lock_dependency against a queue scan, two queues
     cs.append(("direct", base_case(2, 1, [["A0:0", "A1:1", "D1", "T0", "U0", "U0"], ["D0", "Y1", "U0", "T1", "U0"]], nlocks=2, tasks=T2, nq=2)))
+    # a task that names the same lock twice is never handed out (theorem C08_same_lock_twice_never_returned; defect D2 at container level)
+    cs.append(("samelock", base_case(2, 1, [["A0:0", "T0", "Y0", "D0"], ["T0", "t0", "u0", "T0"]], nlocks=1, tasks=[(0, 0)], nq=1)))
     # three threads
     cs.append(("pool3t", base_case(3, 2, [["g", "f0"], ["g", "f0"], ["g", "f0"]])))
     cs.append(("queue3t", base_case(3, 1, [["A0:0", "A0:1", "T0", "U0"], ["T0", "U0", "T0"], ["Y0", "U0", "T0", "U0"]], nlocks=2, tasks=T2 + [(1, -1)], nq=1)))
